@@ -182,8 +182,20 @@ def install_machine(it: Interp, trace: Optional[Trace] = None, area="symbolic", 
         return base_add_cmd(i, a, k)
 
     it.hooks[("svg_types", "SVGPath._add_cmd")] = add_cmd
+    def as_cmd_seq(i, a, k):
+        g = geom_of(a[0])
+        cmds = getattr(g, "cmds", None)
+        if cmds is not None and all(c in ("M", "m") for c, _ in cmds):
+            # a path that only moves the pen: its normal form is known exactly (absolute moves)
+            out, x, y = [], 0, 0
+            for c, args in cmds:
+                x, y = (args[0], args[1]) if c == "M" or not out else (x + args[0], y + args[1])
+                out.append(("M", (x, y)))
+            return out
+        return GeomTok("seq", g)
+
     if not interpret_as_cmd_seq:
-        it.hooks[("svg_types", "SVGShape.as_cmd_seq")] = lambda i, a, k: GeomTok("seq", geom_of(a[0]))
+        it.hooks[("svg_types", "SVGShape.as_cmd_seq")] = as_cmd_seq
     it.hooks[("svg_meta", "_LinkedDefault")] = lambda i, a, k: Linked(a[0])
 
     # a symbolic number printed into an attribute stays that number (re-parsing a printed float gives it back)
